@@ -4,8 +4,8 @@ use crate::wal::block::Block;
 #[cfg(target_os = "linux")]
 use crate::wal::block::Metadata;
 use crate::wal::config::{
-    DEFAULT_BLOCK_SIZE, FsyncSchedule, MAX_BATCH_BYTES, MAX_BATCH_ENTRIES, PREFIX_META_SIZE,
-    debug_print,
+    DEFAULT_BLOCK_SIZE, FsyncSchedule, MAX_ALLOC, MAX_BATCH_BYTES, MAX_BATCH_ENTRIES,
+    PREFIX_META_SIZE, debug_print,
 };
 #[cfg(target_os = "linux")]
 use crate::wal::config::{USE_FD_BACKEND, checksum64};
@@ -18,6 +18,31 @@ use std::sync::{Arc, Mutex};
 
 #[cfg(target_os = "linux")]
 use std::os::unix::io::AsRawFd;
+
+/// Rejections that depend only on the arguments are decided before anything is sealed or
+/// allocated for the entry: an entry that no block can hold, and a topic name whose archived
+/// header does not fit the entry prefix (its size depends on the name only).
+fn check_appendable(col_name: &str, largest_payload: usize) -> std::io::Result<()> {
+    if (PREFIX_META_SIZE as u64).saturating_add(largest_payload as u64) > MAX_ALLOC {
+        return Err(std::io::Error::new(
+            std::io::ErrorKind::InvalidInput,
+            "entry exceeds the largest allocatable block",
+        ));
+    }
+    let probe = crate::wal::block::Metadata {
+        read_size: 0,
+        owned_by: col_name.to_string(),
+        next_block_start: 0,
+        checksum: 0,
+    };
+    match rkyv::to_bytes::<_, 256>(&probe) {
+        Ok(bytes) if bytes.len() <= PREFIX_META_SIZE - 2 => Ok(()),
+        _ => Err(std::io::Error::new(
+            std::io::ErrorKind::InvalidData,
+            "metadata too large",
+        )),
+    }
+}
 
 pub(super) struct Writer {
     allocator: Arc<BlockAllocator>,
@@ -59,6 +84,7 @@ impl Writer {
                 "batch write in progress for this topic",
             ));
         }
+        check_appendable(&self.col, data.len())?;
 
         let mut block = self.current_block.lock().map_err(|_| {
             std::io::Error::new(std::io::ErrorKind::Other, "current_block lock poisoned")
@@ -164,6 +190,7 @@ impl Writer {
                 "batch exceeds 10GB limit",
             ));
         }
+        check_appendable(&self.col, batch.iter().map(|d| d.len()).max().unwrap_or(0))?;
 
         if batch.is_empty() {
             return Ok(());
